@@ -11,7 +11,8 @@ from .common import classify_basic, is_sql
 RULE = (
     "every program over the iteration and SQL alphabets extended with the doomed and join-identity leaves (as roots "
     "and as chain/join operands), trivially false predicates and zero-limit slices, from every leaf configuration, up to "
-    "the depth bound; each tree is diagnosed without an executor and with a truthful executor (real execution of the "
+    "the depth bound, plus three-engine trees (transfers, iteration materializations, statically and dynamically empty "
+    "branches, joins after transfer into SQL) with a Processor-backed executor; each tree is diagnosed without an executor and with a truthful executor (real execution of the "
     "sub-relation it is handed); oracle: no executor: is_doomed => reference empty; executor: is_doomed <=> reference "
     "empty; is_doomed => messages non-empty; non-trivial = the verdict is 'doomed' or the reference is empty; "
     "distinct = distinct (tree, verdicts) digests"
@@ -26,6 +27,33 @@ SQL_EXTRA = (
     ("join", ("D0",), None, False),
     ("join", ("K",), ("plit", False), False),
     ("join", ("E", ("proj", ("a",))), None, False),
+)
+
+
+MULTI16 = (
+    ("xfer", "s"),
+    ("xfer", "e1"),
+    ("xfer", "e2"),
+    ("mat", "m1"),
+    ("calc", "x", spaces.NEG_A),
+    ("proj", ("a", "b")),
+    ("proj", ()),
+    ("sel", spaces.P_A_GT_1),
+    ("sel", ("gt", ("ref", "a"), ("lit", 99))),
+    ("sel", spaces.P_FALSE),
+    ("dedup",),
+    ("slice", 1, 3),
+    ("slice", 6, 8),
+    ("slice", 0, 0),
+    ("chain", ("self",)),
+    ("chain", ("E",)),
+    ("chain", ("E1",)),
+    ("chain", ("D1",), True),
+    ("chain", ("DS",)),
+    ("chain", ("L",)),
+    ("chain", ("X",)),
+    ("join", ("K",), None, False),
+    ("join", ("K",), ("plit", False), False),
 )
 
 
@@ -44,6 +72,7 @@ class C16(Check):
                 SubSpace("it/full+/d3", iw, ("L", "Eloose", "D0"), it_ops, 3),
                 SubSpace("sql/full+/d2", sw, ("X", "Eloose", "E", "D0"), sql_ops, 2),
                 SubSpace("sql/full+/X/d3", sw, ("X", "Eloose"), sql_ops, 3),
+                SubSpace("multi/d3", spaces.multi_world(), ("X", "L", "E", "E1"), MULTI16, 3),
             ]
         return [
             SubSpace("it/full+/d3", iw, spaces.IT_ROOTS_ALL + ("D0",), it_ops, 3),
@@ -51,6 +80,7 @@ class C16(Check):
             SubSpace("sql/full+/d3", sw, ("X", "Eloose", "E", "D0", "Xunb"), sql_ops, 3),
             SubSpace("sql/reduced+/X/d5", sw, ("X",), sql_red, 5),
             SubSpace("sql/reduced+/X/d4", sw, ("X", "Eloose"), sql_red, 4),
+            SubSpace("multi/d4", spaces.multi_world(), ("X", "L", "E", "E1"), MULTI16, 4),
         ]
 
     def judge(self, tr):
@@ -58,8 +88,18 @@ class C16(Check):
             return False
         rel, val, ctx = tr.rel, tr.val, tr.ctx
         calls = []
+        multi = tr.sub.label.startswith("multi")
+        if multi:
+            from .. import findings
+            from ..realize import RealProcessor
+
+            if findings.sql_materialization_over_changing_upstream(rel):
+                tr.count("skipped_known_c07_shape")
+                return True
 
         def executor(r):
+            if multi:
+                r = RealProcessor(ctx).process(r)
             rows = ctx.rows_of(r)
             calls.append(len(rows))
             return bool(rows)
@@ -106,7 +146,7 @@ def run(tier, seed):
         "coverage": coverage_from(res, RULE),
         "violations": res["violations"],
         "assumptions": [
-            "single-engine trees (multi-engine diagnostics through the Processor are exercised in C07)",
+            "multi-engine trees use an executor that processes the sub-relation with the real Processor before executing it",
             "the executor answers by really executing the sub-relation it is handed",
             "programs whose emptiness the reference cannot determine (operations after an ambiguous slice) are skipped and counted",
         ],
